@@ -81,8 +81,19 @@ def code_shape(text, dict_compress=True):
         return "does-not-compile"
     except RecursionError:
         return "too-deep"
+    # constants are abstracted -- except the integers that say HOW MANY stack values something takes (the count
+    # handed to pop / wrapify, an arity assigned to a function): those are grouping, not data
+    keep = set()
     for node in ast.walk(tree):
-        if isinstance(node, ast.Constant):
+        if isinstance(node, ast.Call) and isinstance(node.func, ast.Name) and node.func.id in ("pop", "wrapify"):
+            for a in node.args[1:2]:
+                if isinstance(a, ast.Constant) and isinstance(a.value, int):
+                    keep.add(id(a))
+        if isinstance(node, ast.Assign) and any(isinstance(t, ast.Attribute) and t.attr in ("arity", "stored_arity") for t in node.targets):
+            if isinstance(node.value, ast.Constant):
+                keep.add(id(node.value))
+    for node in ast.walk(tree):
+        if isinstance(node, ast.Constant) and id(node) not in keep:
             node.value = 0
             node.kind = None
     try:
@@ -123,7 +134,15 @@ def cases(tier, rng, d):
             for n in lens:
                 if not legal(kind, n):
                     continue
-                payloads = ["".join(t) for t in itertools.product(alpha, repeat=n)]
+                if n == 2 and tier == "quick":
+                    # pairs: both of the property's characters, or one lexer character next to one of six others
+                    core, lex = d["payload_alphabet"], d.get("lexer_alphabet", "")
+                    payloads = ["".join(t) for t in itertools.product(core, repeat=2)] + \
+                               [x + y for x in lex for y in lex[:6]] + [y + x for x in lex[6:] for y in lex[:6]] + \
+                               [x + y for x in lex[:8] for y in core[:6]] + [y + x for x in lex[:8] for y in core[:6]]
+                    payloads = list(dict.fromkeys(payloads))
+                else:
+                    payloads = ["".join(t) for t in itertools.product(alpha, repeat=n)]
                 if kind == "twochar" and ci not in full2:
                     payloads = [p for p in payloads if p[0] == p[1] or rng.random() < 0.05]
                 for p in payloads:
